@@ -170,6 +170,9 @@ def init_line(W, H, fmtname, sibpp=32, sigmax=255):
     return "init %d %d %s %d %d %s" % (W, H, " ".join(map(str, C07.FORMATS[fmtname])), sibpp, sigmax, C07.ALL_ENCS)
 
 
+JPEGS = [(320, 320), (321, 320), (400, 300), (512, 256), (64, 48)]
+
+
 def gen_special(rng, k):
     """hand-shaped malformed streams aimed at the bounds logic of specific decoders"""
     fmtname = rng.choice(list(C07.FORMATS))
@@ -177,7 +180,7 @@ def gen_special(rng, k):
     bypp = bpp // 8
     W, H = rng.choice([1, 8, 16, 17, 40, 65]), rng.choice([1, 8, 16, 17, 40])
     which = rng.choice(["ultrazip", "ultrazip", "tight_rows", "tight_nozlib", "tight_pal", "tight_wide", "trle_rle", "zrle_short",
-                        "zrle_types", "zrle_exact", "tile_seq", "tile_seq", "tile_seq", "corre_count", "rre_count", "hextile_sub", "resize", "cursor", "lengths", "raw_big", "copy_oob",
+                        "zrle_types", "zrle_exact", "tight_jpeg", "tight_jpeg", "tile_seq", "tile_seq", "tile_seq", "corre_count", "rre_count", "hextile_sub", "resize", "cursor", "lengths", "raw_big", "copy_oob",
                         "cursor_trunc", "cursor_trunc", "trunc_large", "trunc_large"])
     L = ["case %d special:%s %s %dx%d" % (k, which, fmtname, W, H)]
     tags = ["special." + which]
@@ -197,7 +200,9 @@ def gen_special(rng, k):
     L.append("dump 0")
     if which == "ultrazip":
         nrec = rng.choice([0, 1, 2, 3, 40, 41, 42, 43, 1000, 65535])
-        ry, rw = rng.choice([(1, 0), (0, 1), (500, 0), (100, 0), (0, 0), (65535, 0)])
+        # rw scales the announced uncompressed size by 65535: small, around the int limit (32767..32769), maximal
+        ry, rw = rng.choice([(1, 0), (0, 1), (500, 0), (100, 0), (0, 0), (65535, 0), (0, 2), (7, 30), (0, 32767), (32000, 32767),
+                             (0, 32769), (65535, 32769), (1, 40000), (0, 65535), (65535, 65535)])
         recs = ""
         for _ in range(rng.choice([0, 1, 2, 3])):
             sx, sy = rng.choice([0, 1, W - 1, W]), rng.choice([0, 1, H - 1, H])
@@ -269,6 +274,28 @@ def gen_special(rng, k):
         kk = max(0, room - r * (cpx + 1))
         t1 = "80" + (rb(cpx) + "00") * r + rb(cpx) + "ff" * kk + "00"
         L += ["b 00000001", "b " + hdr(0, 0, W, H, 16), "z 0 1 1 " + t1 + t2]
+    elif which == "tight_jpeg":
+        # Tight JPEG rectangles (real JPEG images from corpus/C08/jpeg_WxH.hex): image as large as, larger or smaller than
+        # the rectangle, rectangles beyond the 102400 pixels whose RGB form fits client->buffer, truncated / corrupt data
+        jw, jh = rng.choice(JPEGS)
+        blob = open(os.path.join(vlib.VERIF, "corpus", PID, "jpeg_%dx%d.hex" % (jw, jh))).read().strip()
+        rw_, rh_ = rng.choice([(jw, jh), (jw, jh), (jw, jh), (jw + 1, jh), (jw, jh - 1), (jw // 2, jh // 2), (jw * 2, jh), (1, 1)])
+        W, H = max(rw_, 1) + rng.choice([0, 3]), max(rh_, 1) + rng.choice([0, 2])
+        m = rng.random()
+        if m < 0.15:
+            blob = blob[:2 * rng.randrange(2, len(blob) // 2)]
+        elif m < 0.25:
+            pos = 2 * rng.randrange(20, len(blob) // 2)
+            blob = blob[:pos] + "%02x" % rng.getrandbits(8) + blob[pos + 2:]
+        n = len(blob) // 2
+        cl = [n & 0x7f | (0x80 if n > 127 else 0)]
+        if n > 127:
+            cl.append((n >> 7) & 0x7f | (0x80 if n > 16383 else 0))
+        if n > 16383:
+            cl.append(n >> 14)
+        L[:] = ["case %d special:%s %s %dx%d jpeg %dx%d" % (k, which, fmtname, W, H, jw, jh),
+                init_line(W, H, fmtname, *rng.choice([(32, 255), (16, 63), (16, 31)])), "fill %d" % rng.randrange(1 << 30), "dump 0",
+                "b 00000001", "b " + hdr(0, 0, rw_, rh_, 7), "b 9" + rng.choice("0f3") + bytes(cl).hex() + blob]
     elif which == "tile_seq":
         # sequences of TRLE / ZRLE tile types, conforming or not: a tile that leaves a palette of n entries (n at every
         # index-width boundary) or none, anything in between, then 127 / 129 (palette reuse; does not exist in ZRLE and
@@ -513,6 +540,20 @@ def build(ctx):
     return cexe, mexe, proof_ok
 
 
+def jpeg16_big(case):
+    """does the script send a Tight JPEG rectangle of more than RFB_BUFFER_SIZE / 3 pixels to a 16-bpp client?"""
+    tok = case.get("tok", [])
+    init = next((l.split() for l in tok if l.startswith("init ")), None)
+    if not init or len(init) < 4 or init[3] != "16":
+        return False
+    for a, b in zip(tok, tok[1:]):
+        if a.startswith("b ") and len(a) == 2 + 24 and a.endswith("00000007") and b.startswith("b 9"):
+            w, h = int(a[2 + 8:2 + 12], 16), int(a[2 + 12:2 + 16], 16)
+            if w * h * 3 > 307200:
+                return True
+    return False
+
+
 def cause_of(verdict):
     """classify a sanitizer verdict by the library frames, the access kind and the error class"""
     p = verdict.split()
@@ -525,6 +566,10 @@ def cause_of(verdict):
     # confirmed defect: anything else in the same function is a different failure
     if "HandleUltraZip" in fns and rw == "READ":
         return "ultrazip_walk"
+    if "HandleUltraZip" in fns and "lzo1x_decompress" in fns and kind == "SEGV":
+        return "ultrazip_int_overflow"
+    if "DecompressJpegRect" in fns:
+        return "tight_jpeg16_overflow"
     if "FilterGradient" in fns and kind == "stack-buffer-overflow":
         return "tight_wide_gradient"
     if ("Filter" in fns or "HandleTight" in fns) and kind in ("heap-buffer-overflow", "use-after-poison"):
@@ -542,7 +587,7 @@ def cause_of(verdict):
     return "other:%s:%s:%s" % (kind, rw, fns.split("<")[0])
 
 
-OOB_CAUSE = {40: "ultrazip_walk", 41: "ultrazip_walk", 77: "tight_extra_rows", 78: "tight_wide_gradient", 73: "tight_wide_gradient",
+OOB_CAUSE = {45: "ultrazip_int_overflow", 40: "ultrazip_walk", 41: "ultrazip_walk", 77: "tight_extra_rows", 78: "tight_wide_gradient", 73: "tight_wide_gradient",
              76: "tight_wide_gradient", 70: "tight_wide_gradient", 74: "tight_buffer_overread", 75: "tight_extra_rows",
              72: "tight_extra_rows", 50: "trle_rle_overflow", 51: "trle_rle_overflow", 52: "trle_rle_overflow",
              53: "trle_rle_overflow", 55: "trle_rle_overflow", 31: "zrle_overread", 32: "zrle_overread", 33: "zrle_overread",
@@ -562,7 +607,7 @@ def oob_cause(code):
 
 WITNESSES = [("w_ultrazip.script", 0), ("w_tightrows.script", 1), ("w_tightgrad.script", 2), ("w_tightnoz.script", 3),
              ("w_trle.script", 4), ("w_zrleneg.script", 5), ("w_zrlepal.script", 6),
-             ("w_zrle_cpixel24.script", 8)]
+             ("w_zrle_cpixel24.script", 8), ("w_ultrazip_hugew.script", 9)]
 
 
 def with_fixed(tok, mask):
@@ -622,6 +667,10 @@ def judge(case, il, ml):
     verdict = next((l for l in il if l.startswith("verdict ")), "verdict missing")
     body = [l for l in il if not l.startswith("verdict ")]
     cause = cause_of(verdict)
+    if cause is not None and cause.startswith("other") and jpeg16_big(case):
+        # C08-F28 without a clean sanitizer report: libjpeg (not instrumented) has overwritten the members of rfbClient
+        # behind client->buffer, the process dies later (rfbClientCleanup, the next message, the sanitizer itself)
+        cause = "tight_jpeg16_overflow"
     oerr = None
     if cause is not None:
         oerr = "memory-safety / liveness violated on the implementation: " + verdict[8:]
